@@ -6,6 +6,8 @@ def specs_direct(tier):
     t = 60000 if tier == "thorough" else 20000
     s = [(DR, "unit_grouped_greens_functions", {"nsub": n, "conjugate": c, "timeout_ms": t}) for n, c in ((1, False), (1, True), (2, True), (3, False))]
     s += [(DR, "unit_direct_solve", {"nsub": n, "nonhermitian": nh, "timeout_ms": t}) for n, nh in ((1, False), (1, True), (2, True), (3, False))]
+    s += [(DR, "unit_direct_setup", {"nsub": n, "nonhermitian": nh, "opts": o, "timeout_ms": t})
+          for n, nh, o in ((1, False, "none"), (2, True, "none"), (2, False, "eigenvalue_atol"), (1, True, "atol"), (1, False, "eps"), (2, True, "extra"), (3, False, "extra"))]
     s += [("contracts.kpm", "unit_greens_function", {"timeout_ms": t})]
     s += [("contracts.kpm", "unit_solve_sylvester_KPM", {"nsub": n, "with_aux": a, "timeout_ms": t}) for n, a in ((1, False), (1, True), (2, True))]
     s += [("contracts.kpm", "unit_solve_sylvester_KPM", {"nsub": n, "with_aux": a, "timeout_ms": t, "defaults": True}) for n, a in ((2, False), (1, True))]
